@@ -116,10 +116,12 @@ export function makeAttr(b, rng, kind, st) {
       return { ...A.spread(b.leaf(g), g), kind, dynamic: true };
     }
     case 'spreadObjLit': {
-      b.importNamed('probe:lib', 'hB');
+      // a listener of its own: the same function twice on one event is not decided by the statement
+      if (st.usedNames.has('hS')) return null;
       const n = st.nameCounter++;
-      const variants = [`{ q${n}: 1, class: "lit${n}" }`, `{ onClick: hB, style: { top: ${n} } }`, `{ q${n}: ${b.global({ k: 'sent' })} }`, `{}`];
+      const variants = [`{ q${n}: 1, class: "lit${n}" }`, `{ onClick: hS, style: { top: ${n} } }`, `{ q${n}: ${b.global({ k: 'sent' })} }`, `{}`];
       const src = rng.pick(variants);
+      if (src.includes('hS')) { st.usedNames.add('hS'); b.importNamed('probe:lib', 'hS'); }
       return { ...A.spread(b.leaf(`(${src})`), src), kind, dynamic: true };
     }
     case 'spreadCall': {
